@@ -191,7 +191,122 @@ class Inliner:
                 return False
         return True
 
+    # -- generator fusion ------------------------------------------------------------------
+    def _generators(self):
+        """new module-level generator functions of the shape  <simple statements>; for/while ...: ... yield v  (one yield, in tail position of the
+        loop body, the loop being the last statement): a loop over such a generator is the generator's own loop with the consumer's body in
+        place of the yield"""
+        out = {}
+        for n in self.tree.body:
+            if not isinstance(n, ast.FunctionDef) or self.baseline is None or n.name in self.baseline or n.name in self._aliased_known():
+                continue
+            if n.decorator_list or n.args.vararg or n.args.kwarg:
+                continue
+            own = list(_own(n))
+            ys = [x for x in own if isinstance(x, (ast.Yield, ast.YieldFrom))]
+            if len(ys) != 1 or isinstance(ys[0], ast.YieldFrom) or ys[0].value is None:
+                continue
+            if any(isinstance(x, ast.Return) and x.value is not None for x in own) or any(isinstance(x, (ast.FunctionDef, ast.AsyncFunctionDef, ast.ClassDef, ast.Lambda, ast.Global, ast.Nonlocal, ast.Try, ast.With)) for x in own):
+                continue
+            body = [s_ for s_ in n.body if not (isinstance(s_, ast.Expr) and isinstance(s_.value, ast.Constant) and isinstance(s_.value.value, str))]
+            if not body or not isinstance(body[-1], (ast.For, ast.While)) or body[-1].orelse:
+                continue
+            if any(isinstance(x, (ast.For, ast.While, ast.If, ast.Return)) for s_ in body[:-1] for x in ast.walk(s_)):
+                continue
+
+            def tail_yield(stmts):
+                if not stmts:
+                    return False
+                last = stmts[-1]
+                if any(isinstance(x, ast.Yield) for s_ in stmts[:-1] for x in ast.walk(s_)):
+                    return False
+                if isinstance(last, ast.Expr) and isinstance(last.value, ast.Yield):
+                    return True
+                if isinstance(last, ast.If):
+                    in_body = any(isinstance(x, ast.Yield) for s_ in last.body for x in ast.walk(s_))
+                    in_else = any(isinstance(x, ast.Yield) for s_ in last.orelse for x in ast.walk(s_))
+                    if in_body and not in_else:
+                        return tail_yield(last.body)
+                    if in_else and not in_body:
+                        return tail_yield(last.orelse)
+                return False
+            if tail_yield(body[-1].body):
+                out[n.name] = n
+        return out
+
+    def _fuse_generators(self):
+        gens = self._generators()
+        if not gens:
+            return
+        for holder, qual in list(self._functions(self.tree.body, '')):
+            if holder.name in gens:
+                continue
+            caller_bound = _bound_names(holder) | set(_params(holder))
+
+            def process(body):
+                i = 0
+                while i < len(body):
+                    st = body[i]
+                    for f in ('body', 'orelse', 'finalbody'):
+                        b = getattr(st, f, None)
+                        if isinstance(b, list) and b and isinstance(b[0], ast.stmt) and not isinstance(st, (ast.FunctionDef, ast.AsyncFunctionDef, ast.ClassDef)):
+                            process(b)
+                    if isinstance(st, ast.For) and not st.orelse:
+                        it = st.iter
+                        counter, start = None, 0
+                        if isinstance(it, ast.Call) and isinstance(it.func, ast.Name) and it.func.id == 'enumerate' and it.args and isinstance(st.target, ast.Tuple) and len(st.target.elts) == 2 and isinstance(st.target.elts[0], ast.Name):
+                            sv = it.args[1] if len(it.args) > 1 else next((k.value for k in it.keywords if k.arg == 'start'), ast.Constant(0))
+                            if isinstance(sv, ast.Constant) and isinstance(sv.value, int):
+                                counter, start, it = st.target.elts[0].id, sv.value, it.args[0]
+                        drop = None
+                        if isinstance(it, ast.Name) and i > 0 and isinstance(body[i - 1], ast.Assign) and len(body[i - 1].targets) == 1 and isinstance(body[i - 1].targets[0], ast.Name) and body[i - 1].targets[0].id == it.id \
+                                and sum(1 for x in ast.walk(holder) if isinstance(x, ast.Name) and x.id == it.id) == 2:
+                            drop, it = body[i - 1], body[i - 1].value
+                        if isinstance(it, ast.Call) and isinstance(it.func, ast.Name) and it.func.id in gens:
+                            inst = self._instantiate(gens[it.func.id], it, holder, False, caller_bound)
+                            if inst is not None:
+                                target = st.target.elts[1] if counter is not None else st.target
+                                done = False
+                                for holder2 in ast.walk(ast.Module(body=inst, type_ignores=[])):
+                                    for f in ('body', 'orelse'):
+                                        b = getattr(holder2, f, None)
+                                        if isinstance(b, list):
+                                            for j, x in enumerate(b):
+                                                if isinstance(x, ast.Expr) and isinstance(x.value, ast.Yield):
+                                                    rep = []
+                                                    if counter is not None:
+                                                        rep.append(ast.AugAssign(target=ast.Name(counter, ast.Store()), op=ast.Add(), value=ast.Constant(1)))
+                                                    rep.append(ast.Assign(targets=[copy.deepcopy(target)], value=x.value.value))
+                                                    rep += st.body
+                                                    for r_ in rep:
+                                                        ast.copy_location(r_, x) if not hasattr(r_, 'lineno') else None
+                                                        ast.fix_missing_locations(r_)
+                                                    b[j:j + 1] = rep
+                                                    done = True
+                                                    break
+                                        if done:
+                                            break
+                                    if done:
+                                        break
+                                if done:
+                                    new = []
+                                    if counter is not None:
+                                        new.append(ast.fix_missing_locations(ast.copy_location(ast.Assign(targets=[ast.Name(counter, ast.Store())], value=ast.Constant(start - 1)), st)))
+                                    new += inst
+                                    lo = i - 1 if drop is not None else i
+                                    body[lo:i + 1] = new
+                                    self.expanded[it.func.id] = self.expanded.get(it.func.id, 0) + 1
+                                    self.log.append(f'{holder.name}: loop over generator {it.func.id} fused at line {getattr(st, "lineno", "?")}')
+                                    i = lo + len(new)
+                                    continue
+                    i += 1
+            process(holder.body)
+
     def run(self):
+        try:
+            self._fuse_generators()
+        except Exception as e:      # a fusion that cannot be built leaves the code as it is
+            self.log.append(f'generator fusion skipped: {type(e).__name__}: {e}')
         for _ in range(MAX_ROUNDS):
             changed = False
             top = {n.name: n for n in self.tree.body if isinstance(n, (ast.FunctionDef, ast.AsyncFunctionDef))}
